@@ -18,6 +18,9 @@ def tdm_script(draw, tier, control=False):
     ctx.params = params
     items = []
     pnames = draw(st.lists(st.sampled_from(["p0", "p1", "p2", "p7", "p12", "p007", "p3"]), min_size=0, max_size=4, unique=True))
+    # names of the form p<digits> are reserved for p-arrays in this generator (a scalar called p12 that is later
+    # declared again as an array would be passed by name where the model expects its value)
+    ctx.used.update(["p0", "p1", "p2", "p3", "p7", "p12", "p007"])
     for pn in pnames:
         # (sometimes with bare {x} elements: the array is still a p-array and is still passed by name)
         d = draw(S.array_decl(ctx, name=pn, max_rows=draw(st.sampled_from([1, 1, 1, 3])), max_cols=5,
